@@ -10,7 +10,7 @@ from ..core import Result, finding, norm_construct, register
 from ..driver import check_calculate_driver
 from ..indic import analyse_class
 from ..poly import A, C, Frac, ONE, ZERO, mk_rd
-from ..rules_calc import SELF, Signs
+from ..rules_calc import SELF, Signs, _value_fact
 from ..rules_vn import compare_class, load_refs
 from ..sign import ANY, NEG, NONNEG, NONPOS, POS, SignEnv, ZERO as SZERO
 from ..structure import call_name, calls_in
@@ -24,6 +24,37 @@ def _nonneg(s):
     return s in (POS, NONNEG, SZERO)
 
 
+def _vfact(c) -> bool:
+    if isinstance(c, tuple) and c:
+        if c[0] == "not":
+            return _vfact(c[1])
+        if c[0] in ("and", "or"):
+            return any(_vfact(x) for x in c[1:])
+        if c[0] == "truthy":
+            return True
+    return _value_fact(c)
+
+
+class _Rec(dict):
+    def __init__(self):
+        super().__init__()
+        self.keys_ = []
+
+    def __getitem__(self, k):
+        if k not in self.keys_:
+            self.keys_.append(k)
+        return ONE
+
+
+def _involved(fn_expr):
+    r = _Rec()
+    try:
+        fn_expr(r)
+    except Exception:
+        pass
+    return list(r.keys_)
+
+
 def affine(res, repo, cls, rel_name, fn_expr):
     """on every path where all involved fields are numbers, fn_expr(fields) must be the zero polynomial"""
     ci = {c.name: c for c in repo.shipped()}[cls]
@@ -35,6 +66,17 @@ def affine(res, repo, cls, rel_name, fn_expr):
         try:
             d = fn_expr({k: v.f for k, v in p.ret.items.items() if isinstance(v, Num)})
         except KeyError:
+            # some fields of the identity are set and another is None: allowed while something is still warming up (presence / period
+            # facts), not under a condition on the values seen (`if macd and signal:` withholds the histogram when MACD is exactly 0.0)
+            inv = _involved(fn_expr)
+            have = [k for k in inv if isinstance(p.ret.items.get(k), Num)]
+            none = [k for k in inv if isinstance(p.ret.items.get(k), NoneV)]
+            if have and none and len(have) + len(none) == len(inv):
+                vf = [c for c in p.state.facts if _vfact(c)]
+                if vf:
+                    res.fail("R-AFFINE", finding("C10", "R-AFFINE", ca.fn, p.node or ca.fn.node, f"{rel_name}: {', '.join(none)} is None while {', '.join(have)} are set, under the value condition [{' & '.join(show_cond(c) for c in vf)[:140]}]: the identity does not hold on such a candle", construct=f"{cls}: {rel_name} withheld under {' & '.join(show_cond(c) for c in vf)}"[:190]))
+                else:
+                    res.ok("R-AFFINE", {"class": cls, "identity": rel_name, "withheld only under": " & ".join(show_cond(c) for c in p.state.facts)[:120]})
             continue
         n += 1
         if d.is_zero():
@@ -265,6 +307,14 @@ def run(repo, tier) -> Result:
             res.fail("R-ROUND", finding("C10", "R-ROUND", rvf, n.test, "round_values decides whether to round from the value of round_by: a legitimate round_value (e.g. 0) disables rounding"))
         if not conds_on_rb:
             res.fail("R-ROUND", finding("C10", "R-ROUND", rvf, rvf.node, "round_values no longer rounds both plain floats and float fields of dict readings to round_by", construct="round_values: round calls"))
+    # the dispatch on the kind of reading must accept subclasses of float / dict (numpy.float64 candle values give numpy.float64 sums):
+    # an exact-type test lets them through un-rounded
+    exact = [n for n in ast.walk(rvf.node) if isinstance(n, ast.Compare) and any(isinstance(o, (ast.Is, ast.Eq, ast.In)) for o in n.ops)
+             and any(isinstance(x, ast.Call) and call_name(x) == "type" for x in [n.left] + list(n.comparators))]
+    for n in exact:
+        res.fail("R-ROUND", finding("C10", "R-ROUND", rvf, n, "round_values selects what to round by an exact type test: a reading whose type is a subclass of float / dict (numpy.float64 from array-backed candles, OrderedDict) is stored un-rounded"))
+    if not exact:
+        res.ok("R-ROUND", {"site": rvf.where, "why": "no exact-type test (`type(x) is float`) in round_values: float / dict subclasses are rounded too"})
     # ---- in timeframe configurations the invariants relate readings to the *merged* candle: a merge must wipe the bucket's readings
     from ..driver import check_merge
 
